@@ -21,7 +21,7 @@ RULE = ("generated signatures (positional-only, positional-or-keyword, *args, ke
         "include_result=False, default action_type module.qualname, __name__/__doc__/signature preserved. non-trivial = signature with a "
         "special name, a non-plain parameter kind or an invalid argument list; distinct by (signature, options, argument-list shape)")
 ASSUMPTIONS = ["argument values are JSON-native so that tape copies compare by equality"]
-BATCH = 25
+BATCH = 250
 
 ORDINARY = ["a", "b", "c", "x", "y", "key", "value", "n", "m", "p", "q2", "item"]
 SPECIAL = ["logger", "action_type", "_serializers", "fields", "self", "task_uuid", "task_level", "timestamp", "action_status",
@@ -33,7 +33,7 @@ META = ("task_uuid", "task_level", "timestamp", "action_type", "action_status")
 
 
 def plan(tier, seed):
-    n = 3000 if tier == "quick" else 60000
+    n = 40000 if tier == "quick" else 400000
     return [{"seed": seed, "lo": i, "hi": min(n, i + BATCH)} for i in range(0, n, BATCH)]
 
 
